@@ -399,7 +399,14 @@ fn send_next(term: &mut Term, c: &mut ConnState, cst: &Arc<Mutex<ConnState>>) {
                     wake(c);
                 }
                 "garbage" => {
-                    push_frame(c, &[0x04u8, 0x0d, 0x02, 0xde, 0xad], c.ex, pos, false);
+                    // a well-formed frame that is no reply to the command: a foreign control field, an acknowledgement where a
+                    // reply is due (or a second one), the control field of a command - rotating with the exchange
+                    let variants: [&[u8]; 4] = [&[0x04, 0x0d, 0x02, 0xde, 0xad], &[0x80, 0x00, 0x00], &[0x06, 0x01, 0x00], &[0x05, 0x01, 0x00]];
+                    let mut g = variants[((c.ex + pos) % 4) as usize];
+                    if pos == 0 && g == [0x80, 0x00, 0x00] {
+                        g = variants[0];
+                    }
+                    push_frame(c, g, c.ex, pos, false);
                     wake(c);
                 }
                 "malformed" => {
@@ -425,7 +432,9 @@ fn send_next(term: &mut Term, c: &mut ConnState, cst: &Arc<Mutex<ConnState>>) {
                     wake(c);
                 }
                 "nack" => {
-                    push_frame(c, &[0x84u8, 0x9c, 0x00], c.ex, pos, false);
+                    // a negative acknowledgement; the code rotates with the exchange
+                    let code = [0x9cu8, 0x00, 0x83, 0xff, 0x1e, 0x6c][((c.ex + pos) % 6) as usize];
+                    push_frame(c, &[0x84u8, code, 0x00], c.ex, pos, false);
                     wake(c);
                 }
                 _ => {
